@@ -39,6 +39,11 @@ CHECKS = {
    note="Modelled, not verified: the C semantics of the templates (memcpy lengths, malloc never fails); start() establishing the invariant is checked by the sanitizer runs, not yet by a theorem; UB of the user's own arithmetic is excluded. Trusted: clang sanitizers, as C02.",
    technique="Lean invariant proof on the runtime model + per-machine decidable check + sanitizer runs of the binary",
    design="5/C03"),
+ "C04": dict(cat="proof",
+   text="Lean theorems: pruning call trees by a one-bit-per-buffer fullness abstraction changes no concrete run (prune_runTree), and for every machine passing noSpinCheck no store and no symbol can drive a feed/end dispatch into its move budget (C04_dispatch_returns, C04_feed_returns): each call returns within stepFuel non-consuming moves per byte. noSpinCheck and yieldProgressCheck are evaluated on every accepted program's exported machine (generic population + shapes around loops/try-catch(outofspace)/optional/if); candidates are confirmed by a model-guided search and by running the binary under an alarm; all binaries run random walks under the alarm.",
+   note="One recorded finding (known_findings.json): out-of-space redirect into a non-consuming handler. Trusted: as C02; the alarm-based confirmation.",
+   technique="Lean-proved spin checker with abstraction refinement on exported machines + binary runs under alarm",
+   design="5/C04"),
 }
 
 def main():
